@@ -40,7 +40,7 @@ __all__ = [
 
 DEFAULT_ANALYSIS_WINDOW = 0.05
 DEFAULT_ENERGY_THRESHOLD = 50
-_EPSILON = 1e-10
+_EPSILON = 1e-9
 
 
 def load(input, skip=0, max_read=None, **kwargs):
@@ -263,7 +263,9 @@ def split(
     mode = StreamTokenizer.DROP_TRAILING_SILENCE if drop_trailing_silence else 0
     if strict_min_dur:
         mode |= StreamTokenizer.STRICT_MIN_LENGTH
-    min_length = _duration_to_nb_windows(min_dur, analysis_window, math.ceil)
+    min_length = _duration_to_nb_windows(
+        min_dur, analysis_window, math.ceil, _EPSILON
+    )
     max_length = _duration_to_nb_windows(
         max_dur, analysis_window, math.floor, _EPSILON
     )
@@ -395,10 +397,12 @@ def _duration_to_nb_windows(
     round_fn : callable, optional
         A function for rounding the result, default is `round`.
     epsilon : float, optional
-        A small value added before rounding to address floating-point
-        precision issues, ensuring accurate rounding for cases like
-        `0.3 / 0.1`, where `round_fn=math.floor` would otherwise yield
-        an incorrect result.
+        Tolerance used to address floating-point precision issues: if
+        `duration / analysis_window` is within `epsilon` of a positive
+        integer, that integer is returned whatever `round_fn` is. This
+        ensures accurate results for cases like `0.3 / 0.1` (2.9999...),
+        where `math.floor` would otherwise yield 2, or `0.07 / 0.01`
+        (7.000000000000001), where `math.ceil` would otherwise yield 8.
 
     Returns
     -------
@@ -412,7 +416,11 @@ def _duration_to_nb_windows(
         raise ValueError(err_msg.format(duration, analysis_window))
     if duration == 0:
         return 0
-    return int(round_fn(duration / analysis_window + epsilon))
+    nb_windows = duration / analysis_window
+    nearest = round(nb_windows)
+    if nearest > 0 and abs(nb_windows - nearest) <= epsilon:
+        return int(nearest)
+    return int(round_fn(nb_windows))
 
 
 def _make_audio_region(
